@@ -10,7 +10,7 @@
    and comparing with the record), running `save` / `load`, printing, and comparing up to the
    order of the lists that Go produces by map iteration (`sx_canon`) with `*` = the model's `now`. *)
 From Coq Require Import ZArith NArith List String Bool Ascii.
-From Acme.C12 Require Import Proto NetModel Save Load Proj Domain.
+From Acme.C12 Require Import Proto NetModel Save Load Proj Domain Received.
 Import ListNotations.
 Open Scope string_scope.
 Open Scope Z_scope.
@@ -593,6 +593,17 @@ Fixpoint sx_match (a b : sx) : bool :=
   | _, _ => false
   end.
 
+(* the received-messages relation is compared as a set *)
+Fixpoint dedup_sorted (l : list sx) : list sx :=
+  match l with
+  | a :: ((b :: _) as r) => if sx_eqb a b then dedup_sorted r else a :: dedup_sorted r
+  | _ => l
+  end.
+Definition norm_received (x : sx) : sx :=
+  match x with L (A t :: rest) => L (A t :: dedup_sorted (sort_sx rest)) | _ => x end.
+Definition sx_received (p : PNet) : sx :=
+  L (A "received" :: map (fun t : string * Z * string => L [A "rm"; ss (fst (fst t)); sz (snd (fst t)); ss (snd t)]) (received_rel p)).
+
 (* ---------------------------------------------------------------- the checks of the driver *)
 Definition flag (ok : bool) (label : string) : list string := if ok then [] else [label].
 
@@ -624,9 +635,10 @@ Definition check_L (px lx : sx) : list string :=
   | Some p =>
     flag (sx_eqb (sx_pnet p) px) "L: parsed tree prints differently" ++
     match load now_time p, lx with
-    | Ok n', L [A o; g] =>
+    | Ok n', L [A o; g; rc] =>
       flag (String.eqb o "ok") "L: implementation failed, model loads" ++
       flag (sx_match (sx_canon g) (sx_canon (sx_net (prune n')))) "L: loaded networks differ" ++
+      flag (sx_eqb (norm_received rc) (norm_received (sx_received p))) "L: received-messages relation differs" ++
       flag (wfb n') "L: model-loaded network not wfb"
     | Err _, L [A o] => flag (String.eqb o "err") "L: bad record"
     | Ok _, _ => ["L: implementation failed, model loads"]
